@@ -372,6 +372,19 @@ def headerMac (c : Crypto) (P : EncParams) (fk manifest : Bytes) : Bytes :=
 def signHeader (c : Crypto) (cd : Codec) (P : EncParams) (fk manifest : Bytes) : Bytes :=
   headerMessage P manifest ++ cd.b64 (headerMac c P fk manifest) ++ [10]
 
+/-- The laws the framing proofs need of the AEAD, restricted to what a run actually uses: the payload
+    key `pk` and the nonces `nonceFor P np i last`. (The concrete Lean AES-GCM / ChaCha20-Poly1305 satisfy
+    them for 32-byte keys and 12-byte nonces only, which is what HKDF and the nonce layout produce:
+    `KitProofs/Lemmas/EncRealLaws.lean`.) -/
+structure Crypto.LawfulFor (c : Crypto) (P : EncParams) (pk np : Bytes) : Prop where
+  open_seal : ∀ cph i l p, c.aopen cph pk (nonceFor P np i l) (c.aseal cph pk (nonceFor P np i l) p) = some p
+  seal_length : ∀ cph i l p, (c.aseal cph pk (nonceFor P np i l) p).length = p.length + P.overhead
+  hmac_ne : ∀ k msg, c.hmac k msg ≠ []
+
+theorem Crypto.Lawful.for {c : Crypto} {P : EncParams} (lc : c.Lawful P.overhead) (pk np : Bytes) :
+    c.LawfulFor P pk np :=
+  ⟨fun cph i l p => lc.open_seal cph pk _ p, fun cph i l p => lc.seal_length cph pk _ p, lc.hmac_ne⟩
+
 /-! ## Encrypt -/
 
 def encryptSeg (c : Crypto) (P : EncParams) (cph : Nat) (pk np : Bytes) : ProcFn :=
